@@ -1649,6 +1649,9 @@ func c03ConcScenarios(tier string) []*ConcScenario {
 	gcProgs := [][][]Op{
 		{{{Kind: OpPriGC, A: 0}}, {P(0, 2), opF}},
 		{{{Kind: OpIdxGC, B: true}}, {P(0, 2), opF}},
+		// the hand-over of the freelist file to GC between a commit's
+		// reading of the put count and its freelist flush
+		{{{Kind: OpPriGC, A: 0}}, {opF}, {P(0, 2)}},
 	}
 	bound := 2
 	cfgs := []Config{cfg("mh", false, 8, 48, 48), cfg("mh", false, 8, 1, 1)}
@@ -1660,7 +1663,6 @@ func c03ConcScenarios(tier string) []*ConcScenario {
 			[][]Op{{opF}, {P(0, 2)}, {P(1, 2)}},
 			[][]Op{{opF}, {P(0, 2)}, {R(1)}})
 		gcProgs = append(gcProgs,
-			[][]Op{{{Kind: OpPriGC, A: 0}}, {opF}, {P(0, 2)}},
 			[][]Op{{{Kind: OpIdxGC, B: false}}, {opF}, {P(0, 2)}})
 	}
 	var scs []*ConcScenario
